@@ -197,7 +197,9 @@ def run_stage(stage, prop, tier, seed, plan, workdir, build, cargo_env, log):
     def start(i):
         out = os.path.join(workdir, f"shard-{stage}-{i}.json")
         errp = os.path.join(workdir, f"shard-{stage}-{i}.err")
-        cmd = _shard_cmd(prefix, prop, tier, seed, i, shards, count, workdir, sp["budget_s"], stage, out)
+        # every instrument gets its own histories
+        stage_seed = seed * 1000 + {"asan": 1, "miri1": 2, "miri2": 3, "memcheck": 4}[stage]
+        cmd = _shard_cmd(prefix, prop, tier, stage_seed, i, shards, count, workdir, sp["budget_s"], stage, out)
         errf = open(errp, "w")
         return (i, out, errp, subprocess.Popen(cmd, env=env, cwd=cwd, stdout=subprocess.DEVNULL, stderr=errf), errf,
                 time.time())
